@@ -135,7 +135,7 @@ void mcount_rstack_rehook_exception(struct mcount_thread_data *mtdp, unsigned lo
 		return;
 
 	/* it needs to find how much stack frame unwinds */
-	for (idx = mtdp->idx - 1; idx >= 0; idx--) {
+	for (idx = mcount_rstack_depth(mtdp) - 1; idx >= 0; idx--) {
 		rstack = &mtdp->rstack[idx];
 
 		pr_dbg3("%s: [%d] parent at %p\n", __func__, idx, rstack->parent_loc);
@@ -633,8 +633,11 @@ __visible_default __noreturn void pthread_exit(void *retval)
 		 * onto stack slots that are in use again by then.
 		 */
 		while (mtdp->idx > 0) {
-			rstack = &mtdp->rstack[mtdp->idx - 1];
-			mcount_exit_filter_record(mtdp, rstack, NULL);
+			/* calls beyond the rstack max have no entry */
+			if (mtdp->idx <= mcount_rstack_max) {
+				rstack = &mtdp->rstack[mtdp->idx - 1];
+				mcount_exit_filter_record(mtdp, rstack, NULL);
+			}
 			mtdp->idx--;
 		}
 	}
